@@ -1,10 +1,13 @@
 (* C14 -- reported hydrogen bonds are exactly those meeting the stated criteria.
    Statements only, closed by [exact]; definitions in Hbond/Model.v, Hbond/KsModel.v, proofs in
    Hbond/Proofs.v, Hbond/KsProofs.v, Hbond/KsSpec.v, Hbond/CosR.v. *)
-From Coq Require Import List ZArith QArith Bool Reals Lia Arith Sorting.Permutation.
+From Coq Require Import String.
+From Coq Require Import List ZArith QArith Qreals Bool Reals Lia Arith Sorting.Permutation.
+
 Import ListNotations.
 Require Import MD.Gen.HbondTables MD.Gen.HbondFormulas MD.Hbond.Model MD.Hbond.KsModel MD.Hbond.Run
-               MD.Hbond.Proofs MD.Hbond.KsProofs MD.Hbond.KsSpec MD.Hbond.CosR MD.Hbond.KsFormula MD.Hbond.WnR.
+               MD.Hbond.Proofs MD.Hbond.KsProofs MD.Hbond.KsSpec MD.Hbond.CosR MD.Hbond.KsFormula MD.Hbond.WnR
+               MD.Hbond.Angle MD.Hbond.AngleR MD.Hbond.KsWrap MD.Hbond.KsWrapProofs.
 Local Open Scope Z_scope.
 
 (* ---------------------------------------------------------------- candidate triplets *)
@@ -61,6 +64,33 @@ Theorem law_of_cosines : forall px py pz ux uy uz vx vy vz : Z,
   = 2 * ((ux - px) * (vx - px) + (uy - py) * (vy - py) + (uz - pz) * (vz - pz)).
 Proof. exact law_of_cosines_numerator. Qed.
 Print Assumptions law_of_cosines.
+
+(* ---- the angle cutoff in degrees: enclosed, not approximated -------------------------------------------
+   angles > np.radians(angle_cutoff) is decided as cos < cos(angle_cutoff); cos(deg degrees) is irrational in
+   general and is replaced by the two ends of a PROVED rational enclosure (about 4e-10 wide: 3141592653e-9 < pi <
+   3141592654e-9, partial sums 7 / 8 of the cosine series, cos(deg) = -cos(180 - deg) beyond 90 degrees).
+   bh_angle_real is the angle as mdtraj defines it: acos(clip((a^2 + b^2 - c^2) / (2 a b), -1, 1)) on the three
+   (periodic) distances.  The correspondence evaluates the strict side with bh_cos_sure(angle_cutoff + guard)
+   and the lenient side with bh_cos_maybe(angle_cutoff - guard): the guard only covers mdtraj's float32 rounding.
+   (Over R: standard-library real-number axioms and classic.) *)
+Theorem cos_of_degrees_enclosed : forall deg : Q, (0 <= Q2R deg <= 180)%R ->
+  (Q2R (qcosdeg_lo deg) <= cos (Q2R deg * PI / 180) <= Q2R (qcosdeg_hi deg))%R.
+Proof. exact cosdeg_enclosure. Qed.
+Print Assumptions cos_of_degrees_enclosed.
+
+Theorem bh_angle_sure_is_sound : forall p f d h a deg,
+  bh_cos p = bh_cos_sure deg -> (0 <= Q2R (q_of_pair deg) < 180)%R ->
+  0 < dist2 (bh_periodic p) f d h -> 0 < dist2 (bh_periodic p) f h a ->
+  bh_wide p f (d, h, a) = true -> (Q2R (q_of_pair deg) * PI / 180 < bh_angle_real p f (d, h, a))%R.
+Proof. exact bh_wide_sure_sound. Qed.
+Print Assumptions bh_angle_sure_is_sound.
+
+Theorem bh_angle_maybe_is_complete : forall p f d h a deg,
+  bh_cos p = bh_cos_maybe deg -> (0 <= Q2R (q_of_pair deg) < 180)%R ->
+  0 < dist2 (bh_periodic p) f d h -> 0 < dist2 (bh_periodic p) f h a ->
+  (Q2R (q_of_pair deg) * PI / 180 < bh_angle_real p f (d, h, a))%R -> bh_wide p f (d, h, a) = true.
+Proof. exact bh_wide_maybe_complete. Qed.
+Print Assumptions bh_angle_maybe_is_complete.
 
 (* ---------------------------------------------------------------- Wernet-Nilsson *)
 Theorem wn_prefilter_harmless : forall p t fs,
@@ -232,6 +262,49 @@ Theorem ks_spec : forall p rs xyz oob, nondegenerate p rs xyz oob ->
 Proof. exact ks_spec_concrete. Qed.
 Print Assumptions ks_spec.
 
+(* ---------------------------------------------------------------- the Python layer of kabsch_sander *)
+(* _prep_kabsch_sander_arrays: the index handed to the kernel for N / CA / C / O is that of the FIRST atom of the
+   residue with that name; a residue takes part iff it has all four; the proline flag is the residue NAME "PRO" *)
+Theorem prep_first_atom_with_name : forall nm atoms i,
+  first_named nm atoms = Some i <->
+  exists l1 l2, atoms = l1 ++ (i, nm) :: l2 /\ forall j s, In (j, s) l1 -> s <> nm.
+Proof. exact first_named_some. Qed.
+Print Assumptions prep_first_atom_with_name.
+
+Theorem prep_complete_iff_four_names : forall r,
+  r_skip (prep_residue r) = false <-> has_atom "N"%string r /\ has_atom "CA"%string r /\ has_atom "C"%string r /\ has_atom "O"%string r.
+Proof. exact prep_complete_iff. Qed.
+Print Assumptions prep_complete_iff_four_names.
+
+Theorem prep_proline_by_residue_name : forall r, r_pro (prep_residue r) = true <-> fst r = "PRO"%string.
+Proof. exact prep_proline_iff. Qed.
+Print Assumptions prep_proline_by_residue_name.
+
+(* the sparse-matrix assembly: decoding (indptr, indices, data) as a CSR matrix gives back, row by row, the
+   filled slots of every donor (cumulative-sum and mask arithmetic of the wrapper) ... *)
+Theorem csr_arrays_encode_the_slots : forall l,
+  csr_decode (csr_indptr l) (csr_indices l) (csr_data l) = map csr_row l.
+Proof. exact csr_decode_roundtrip. Qed.
+Print Assumptions csr_arrays_encode_the_slots.
+
+(* ... so the transposed matrix has (row = acceptor a, column = donor d) = e exactly for the filled slots of d *)
+Theorem ks_matrix_entries : forall l a d e,
+  In (a, d, e) (matrix_entries l) <-> (d < List.length l)%nat /\ In (a, e) (csr_row (nth d l empty_nan)).
+Proof. exact matrix_entries_spec. Qed.
+Print Assumptions ks_matrix_entries.
+
+(* md.kabsch_sander for one non-degenerate frame, from the topology's names to the matrix: entry (a, d) = e iff
+   a is one of the two lowest-energy eligible acceptors of donor d (ks_spec) and e is that energy *)
+Theorem ks_matrix_is_the_best_two : forall p rs xyz oob, nondegenerate p (prep rs) xyz oob ->
+  exists M, kabsch_sander_py p rs xyz oob = Some M /\
+  forall a d e, In (a, d, e) M <->
+    (d < List.length rs)%nat /\
+    exists c, In c (firstn 2 (ranked (map (fun a' => (a', frame_energy p (prep rs) xyz oob d a'))
+                (filter (eligible p xyz (prep rs) (frame_energy p (prep rs) xyz oob) d) (seq 0 (List.length rs)))))) /\
+              a = fst c /\ e = Some (snd c).
+Proof. exact ks_matrix_spec. Qed.
+Print Assumptions ks_matrix_is_the_best_two.
+
 (* ---------------------------------------------------------------- Kabsch-Sander hydrogen position *)
 (* as found: the result of a frame depends on data outside the frame (index -1) *)
 Theorem ks_h_position_refuted : exists p init rs xyz oob1 oob2,
@@ -295,3 +368,24 @@ Example wn_sure_example :
   cone_maybe 1024 (33 # 100) (44 # 1000000) 82204 10486 60000 = false.
 Proof. split; vm_compute; reflexivity. Qed.
 Print Assumptions wn_sure_example.
+
+(* the enclosure is tight and the two sides bracket the threshold: 119 / 121 degrees at cutoff 120 *)
+Example bh_angle_example :
+  angle_gt_sure 120 (-2 * 515) 1000 1000 = true /\ angle_gt_maybe 120 (-2 * 485) 1000 1000 = false /\
+  (Qnum (qcosdeg_hi 120 - qcosdeg_lo 120) * 1000000000 < QDen (qcosdeg_hi 120 - qcosdeg_lo 120))%Z.
+Proof. repeat split; vm_compute; reflexivity. Qed.
+Print Assumptions bh_angle_example.
+
+(* a residue with two atoms named CA: the first one is taken; without O the residue does not take part *)
+Example prep_example :
+  prep_residue ("PRO"%string, [(4%nat, "N"%string); (5%nat, "CA"%string); (6%nat, "CA"%string); (7%nat, "C"%string)]) =
+  mkRes (Some 4%nat) (Some 5%nat) (Some 7%nat) None true.
+Proof. reflexivity. Qed.
+Print Assumptions prep_example.
+
+Example csr_example :
+  let l := [((Some 3%nat, Some (-7)), (None, None)); empty_nan; ((Some 0%nat, Some (-9)), (Some 1%nat, Some (-8)))] in
+  csr_indptr l = [0; 1; 1; 3]%nat /\ csr_indices l = [3; 0; 1]%nat /\
+  matrix_entries l = [(3%nat, 0%nat, Some (-7)); (0%nat, 2%nat, Some (-9)); (1%nat, 2%nat, Some (-8))].
+Proof. repeat split; reflexivity. Qed.
+Print Assumptions csr_example.
